@@ -9,5 +9,6 @@ open Nanite.C16 Nanite.C16W
 #print axioms c16_partial_save_safe
 #print axioms c16_resave_different
 #print axioms c16_resave_same_keeps_columns
+#print axioms c16_resave_same_keeps_other_attrs
 #print axioms c16_roundtrip
 #print axioms c16w_partial_group_passed_old_test
